@@ -97,7 +97,9 @@ class Group:
     def __getitem__(self, key: int | str | Gateway) -> Gateway:
         if isinstance(key, int):
             return self._gateways[key]
-        for gw in self._gateways:
+        # iterate over a snapshot: a gateway that exits concurrently removes
+        # itself from the list, which would make this loop skip its neighbour
+        for gw in list(self._gateways):
             if gw == key or gw.id == key:
                 return gw
         raise KeyError(key)
